@@ -84,6 +84,20 @@ func ParseMBAPHeader(data []byte) (MBAPHeader, error) {
 	}, nil
 }
 
+// checkTCPRequestLength returns parsing error when data is too short to contain the fixed part of request with given function code
+func checkTCPRequestLength(header MBAPHeader, data []byte, functionCode uint8, minLen int) *ErrorParseTCP {
+	if len(data) >= minLen {
+		return nil
+	}
+	tmpErr := NewErrorParseTCP(ErrIllegalDataValue, "received data length too short to be valid packet")
+	tmpErr.Packet.TransactionID = header.TransactionID
+	if len(data) > 6 {
+		tmpErr.Packet.UnitID = data[6]
+	}
+	tmpErr.Packet.Function = functionCode
+	return tmpErr
+}
+
 // LooksLikeType is enum for classifying what given slice of bytes could potentially could be parsed to
 type LooksLikeType int
 
